@@ -274,6 +274,79 @@ pub fn progress_bar(counts: [usize; 6], bar_size: usize) -> String {
     crate::progress_fancy::verif_hooks::progress_bar(&c, bar_size)
 }
 
+/// What a scripted command does when process::run_command is asked to run it (task-level
+/// differential check): the pieces of output handed to the read callback, the termination
+/// (0 success, 1 failure, 2 interrupted), a depfile the command writes, and the response file
+/// whose content it observes when it starts.
+pub struct CommandScript {
+    pub chunks: Vec<Vec<u8>>,
+    pub termination: u8,
+    pub write_depfile: Option<(std::path::PathBuf, Vec<u8>)>,
+    pub observe: Option<std::path::PathBuf>,
+}
+thread_local! {
+    static COMMAND_SCRIPT: std::cell::RefCell<Option<CommandScript>> = std::cell::RefCell::new(None);
+    static COMMAND_OBSERVED: std::cell::RefCell<Option<(String, Option<Vec<u8>>)>> = std::cell::RefCell::new(None);
+}
+pub fn set_command_script(s: Option<CommandScript>) {
+    COMMAND_SCRIPT.with(|c| *c.borrow_mut() = s);
+}
+/// (command line as received, content of the observed file at that moment)
+pub fn take_command_observed() -> Option<(String, Option<Vec<u8>>)> {
+    COMMAND_OBSERVED.with(|c| c.borrow_mut().take())
+}
+pub fn scripted_run_command(
+    cmdline: &str,
+    output_cb: &mut dyn FnMut(&[u8]),
+) -> Option<anyhow::Result<crate::process::Termination>> {
+    let script = COMMAND_SCRIPT.with(|c| c.borrow_mut().take())?;
+    let seen = script.observe.as_ref().map(|p| std::fs::read(p).ok()).unwrap_or(None);
+    COMMAND_OBSERVED.with(|c| *c.borrow_mut() = Some((cmdline.to_string(), seen)));
+    for ch in &script.chunks {
+        output_cb(ch);
+    }
+    if let Some((p, content)) = &script.write_depfile {
+        let _ = std::fs::write(p, content);
+    }
+    Some(Ok(match script.termination {
+        0 => crate::process::Termination::Success,
+        2 => crate::process::Termination::Interrupted,
+        _ => crate::process::Termination::Failure,
+    }))
+}
+
+pub struct TaskOutcome {
+    pub termination: u8,
+    pub output: Vec<u8>,
+    pub discovered_deps: Option<Vec<Vec<u8>>>,
+}
+/// task::run_task as the worker thread calls it; the last-line callback's arguments beside it
+pub fn run_task(
+    cmdline: &str,
+    depfile: Option<&std::path::Path>,
+    parse_showincludes: bool,
+    rspfile: Option<(std::path::PathBuf, Vec<u8>)>,
+) -> (Result<TaskOutcome, String>, Vec<Vec<u8>>) {
+    let rsp = rspfile.map(|(path, content)| crate::graph::RspFile {
+        path,
+        content: unsafe { String::from_utf8_unchecked(content) },
+    });
+    let (r, lines) = crate::task::verif_hooks::run_task(cmdline, depfile, parse_showincludes, rsp.as_ref());
+    (
+        r.map(|t| TaskOutcome {
+            termination: match t.termination {
+                crate::process::Termination::Success => 0,
+                crate::process::Termination::Interrupted => 2,
+                crate::process::Termination::Failure => 1,
+            },
+            output: t.output,
+            discovered_deps: t.discovered_deps.map(|d| d.into_iter().map(|s| s.into_bytes()).collect()),
+        })
+        .map_err(|e| e.to_string()),
+        lines,
+    )
+}
+
 fn state_counts(counts: [usize; 6]) -> StateCounts {
     use crate::work::BuildState::*;
     let mut c = StateCounts::default();
